@@ -246,6 +246,31 @@ func c01Run(e *core.Env) {
 		})
 		e.SetBound("journal_depth_"+pl.tag, pl.n)
 	}
+	// position life histories: bought, sold out completely, bought again, sold out again ...
+	chainN := core.Pick(e, 4, 6)
+	var chainCfgs []ref.BalCfg
+	for _, v := range []string{"CHF", "USD", "AAPL"} {
+		chainCfgs = append(chainCfgs, ref.BalCfg{Valuation: v}, ref.BalCfg{Valuation: v, Interval: ref.Daily}, ref.BalCfg{Valuation: v, Interval: ref.Weekly, Diff: true, NoClose: true})
+	}
+	chainCfgs = append(chainCfgs, ref.BalCfg{Interval: ref.Daily})
+	e.Note("position chains: 7 step kinds, <= %d steps on consecutive days, %d flag sets", chainN, len(chainCfgs))
+	positionChains(e, chainN, func(seq []jr.Dir) {
+		for _, cfg := range chainCfgs {
+			if !e.Take() {
+				continue
+			}
+			key, detail, _ := c01One(drv, seq, cfg, e.CaseNo()%2 == 0)
+			e.Count("evaluations")
+			if key != "" {
+				cs := struct {
+					balCase
+					CSV bool
+				}{balCase{cloneDirs(seq), cfg}, e.CaseNo()%2 == 0}
+				e.Violation(key, detail, cs, func() bool { k, _, _ := c01One(drv, cs.Body, cs.Cfg, cs.CSV); return k == key })
+			}
+		}
+	})
+	e.SetBound("position_chain_steps", chainN)
 	if e.Take() {
 		// The explorer treats a processor callback as atomic. Whether the stages of the
 		// per-day pipeline share mutable data without synchronisation (which would let a
